@@ -160,12 +160,21 @@ Proof.
   - intros [D|H]; [discriminate|auto].
 Qed.
 
+Lemma evict_targetb_spec obs : evict_targetb obs = true <-> evict_target obs.
+Proof.
+  unfold evict_targetb, evict_target. rewrite forallb_forall. split.
+  - intros H o e Io Ie Ev. specialize (H o Io). rewrite forallb_forall in H. specialize (H e Ie).
+    rewrite Ev in H. cbn in H. apply Z.eqb_eq. exact H.
+  - intros H o Io. apply forallb_forall. intros e Ie. destruct (is_evict e) eqn:Ev; [|reflexivity].
+    cbn. apply Z.eqb_eq. eauto.
+Qed.
+
 Theorem prop_code_spec j0 ops obs : prop_code j0 ops obs = 0 <-> C17_holds j0 ops obs.
 Proof.
   unfold prop_code, C17_holds, C17_core.
   rewrite <- evict_guardb_spec, <- absorbingb_spec, <- timeout_deletesb_spec,
           <- at_most_onceb_spec, <- frameb_spec, <- evict_other_nodeb_spec, <- timeout_cleansb_spec,
-          <- unbound_guardb_spec, <- write_absorbingb_spec.
+          <- unbound_guardb_spec, <- write_absorbingb_spec, <- evict_targetb_spec.
   destruct (Nat.eqb (length obs) (length ops)) eqn:L; cbn.
   2: { apply Nat.eqb_neq in L. split; [discriminate|tauto]. }
   apply Nat.eqb_eq in L.
@@ -177,7 +186,8 @@ Proof.
   destruct (evict_other_nodeb j0 obs); cbn; [|split; [discriminate|intros ((_&_&_&_&_&_&?&_)&_); discriminate]].
   destruct (direct j0 || evict_unboundb false ops obs); cbn;
     [|split; [discriminate|intros ((_&_&_&_&_&_&_&?&_)&_); discriminate]].
-  destruct (write_absorbingb j0 obs); cbn; [|split; [discriminate|intros ((_&_&_&_&_&_&_&_&?)&_); discriminate]].
+  destruct (write_absorbingb j0 obs); cbn; [|split; [discriminate|intros ((_&_&_&_&_&_&_&_&?&_)&_); discriminate]].
+  destruct (evict_targetb obs); cbn; [|split; [discriminate|intros ((_&_&_&_&_&_&_&_&_&?)&_); discriminate]].
   destruct (timeout_cleansb false j0 ops obs); cbn; [|split; [discriminate|intros (_&?); discriminate]].
   tauto.
 Qed.
@@ -190,6 +200,7 @@ Lemma prop_code_tail j0 ops obs :
     if negb (evict_other_nodeb j0 obs) then 7
     else if negb (direct j0 || evict_unboundb false ops obs) then 10
     else if negb (write_absorbingb j0 obs) then 11
+    else if negb (evict_targetb obs) then 12
     else if negb (timeout_cleansb false j0 ops obs) then 8 else 0.
 Proof.
   intros L G A T O F. unfold prop_code.
